@@ -437,7 +437,7 @@ def canary(driver, files, work):
 # --------------------------------------------------------------------------------------------------
 def build_asan():
     B = V.BUILD / "asan"
-    flags = "-O1 -g -fsanitize=address,undefined -fno-sanitize-recover=all -DGATERY_VERIF -Wno-error"
+    flags = "-O1 -g1 -fsanitize=address,undefined -fno-sanitize-recover=all -DGATERY_VERIF -Wno-error"   # -g1: line tables are enough for the reports, keeps the build small
     with V.Lock("asan"):
         B.mkdir(parents=True, exist_ok=True)
         if not (B / "build.ninja").exists():
@@ -452,7 +452,7 @@ def build_asan():
         src = V.VERIF / "harness" / "C09_wf.cpp"
         libs = [B / "libgatery_scl.a", B / "libgatery_core.a"]
         if not exe.exists() or any(x.stat().st_mtime > exe.stat().st_mtime for x in [src] + libs):
-            cxx = [f for f in V.CXXFLAGS if not f.startswith(f"-I{V.GATERY_B}")] + [f"-I{B}/gen", "-g", "-fsanitize=address,undefined", "-fno-sanitize-recover=all"]
+            cxx = [f for f in V.CXXFLAGS if not f.startswith(f"-I{V.GATERY_B}")] + [f"-I{B}/gen", "-g1", "-fsanitize=address,undefined", "-fno-sanitize-recover=all"]
             ld = ["-Wl,--start-group", str(libs[0]), str(libs[1]), "-Wl,--end-group"] + V.LDLIBS[4:]
             rc, out = V.run(["g++"] + cxx + [str(src), "-o", str(exe)] + ld, timeout=3000)
             if rc != 0:
@@ -540,7 +540,7 @@ def main():
     for f in seqfiles:
         t1_runs.append((f"corpus:{os.path.basename(f)}", ["ops", f]))
     if not replay:
-        nseq, nops = (300, 150) if quick else (3000, 200)
+        nseq, nops = (300, 150) if quick else (1500, 200)
         t1_runs.append((f"generated nseq={nseq} nops={nops} seed={seed}", ["nodeio", str(nseq), str(nops)]))
     t1 = dict(ops=0, seqs=0, lines=0, changed=0, distinct=0, reorders=0, refused={}, hist={}, model_inv_false=0)
     impl_files = []
